@@ -502,7 +502,7 @@ func TestC11_ModelAndBatchEquivalence(t *testing.T) {
 			}
 		}
 	}
-	evid.Checks(200)
+	evid.Checks(400)
 	rapid.Check(t, func(t *rapid.T) {
 		ops := genOps(t)
 		sig, err, nt, cls := run(ops)
